@@ -35,10 +35,36 @@ class FakeDeme:
 
 
 class FakeTree:
+    """what the filters and generators may look at on a tree (the read-only part of DemeTree's interface)"""
+
     def __init__(self, levels):
         self.levels = levels
         self._levels = levels
         self.metaepoch_count = 3
+
+    @property
+    def height(self):
+        return len(self.levels)
+
+    @property
+    def root(self):
+        return self.levels[0][0]
+
+    @property
+    def leaves(self):
+        return self.levels[-1]
+
+    @property
+    def all_demes(self):
+        return [(ln, d) for ln in range(self.height) for d in self.levels[ln]]
+
+    @property
+    def active_demes(self):
+        return [(ln, d) for ln in range(self.height) for d in self.levels[ln] if d.is_active]
+
+    @property
+    def active_non_leaves(self):
+        return [(ln, d) for ln in range(self.height - 1) for d in self.levels[ln] if d.is_active]
 
 
 def gen_tree(rng, prob, dim=2):
@@ -92,13 +118,23 @@ def run_direct(ctx, n, tag, pid="C10"):
                 c = rng.choice(d.children)._sprout_seed
                 inds.append(type(c)(np.array(c.genome) + rng.choice([0.0, 1e-12, 1e-3]), prob, c.fitness))
             cands[d] = DemeCandidates(individuals=list(inds), features=DemeFeatures(nbc_mean_distance=rng.choice([0.0, 0.5, 1.5])))
+        if kind == "level" and H == 3 and rng.random() < 0.4:
+            # an upper level that proposes nothing in this round (root inactive / filtered out / an empty entry) while a deeper level proposes a lot
+            for d in list(cands):
+                if d.level == 0:
+                    if rng.random() < 0.5:
+                        cands[d].individuals = []
+                    else:
+                        del cands[d]
+                elif d.level == 1 and len(cands[d].individuals) < 2:
+                    cands[d].individuals = [rng.choice(d.current_population) for _ in range(rng.randint(2, 4))]
         before = {d: list(c.individuals) for d, c in cands.items()}
         idx = {d: i for i, d in enumerate(cands)}
         meta = {"kind": kind, "mx": mx, "height": H, "cands": {d.id: [float(i.fitness) for i in before[d]] for d in cands}}
         if kind == "level":
             act = [sum(1 for d in lv if d.is_active) for lv in tree.levels] + [0]
             # reachable occupancies only: the level-limit invariant (C08) keeps active <= L on every non-root level
-            L = max(max(act[1:]), 1) + rng.randint(0, 2)
+            L = max(max(act[1:]), 1) + rng.choice([0, 0, 1, 2])
             out = LevelLimit(L)(cands, tree)
             lvls = [d.level for d in cands]
             cm = "[" + "; ".join(f"({idx[d]}%nat, {zl([k_(i.fitness) for i in before[d]])})" for d in cands) + "]"
